@@ -7,10 +7,12 @@
    [tag (g c k) (nmf j) | (j, c) in enumerate(P)]  (`column`), and the empty dict when P is empty.
    `cutoff first n` = number of conformers fingerprinted (theorem first_cases).
    Hypotheses on Section variables that theorems rely on are visible as premises: `fprint_truncation` in
-   all_iters_spec (property C12), `unpickle (pickle l) = Some l` in saved_reload_*. *)
+   all_iters_spec (property C12; discharged for the real per-conformer model M1 in all_iters_spec_M1),
+   `unpickle (pickle l) = Some l` in saved_reload_*. *)
 From Coq Require Import Ascii.
 From E3FP Require Import Base.Prelude Model.Fprint Model.Pipeline Gen.PipelineFacts.
 From E3FP Require Import Proofs.PipelineNames Proofs.Pipeline Proofs.PipelineFs Proofs.PipelineSpec.
+From E3FP Require Model.E3FP Model.Geometry Model.Stereo Proofs.PipelineM1.
 Open Scope Z_scope.
 
 (* regenerated facts: the regex, the delimiters and the defaults are the ones the model was written for *)
@@ -103,13 +105,14 @@ Print Assumptions names_suffix_refuted.
 Theorem all_iters_spec :
   forall (conformer opts : Type) (fprint : opts -> Z -> conformer -> Z -> Z -> result fp)
          (fp_init : opts -> Z -> Z -> result unit) (content : Type) (pickle : list fp -> content)
-         (g : conformer -> Z -> fp) (nmf : Z -> option string),
-    (* fprint_truncation *)
-    (forall (o : opts) (b : Z) (c : conformer) (L k : Z), 0 <= k <= L -> fprint o b c L k = fprint o b c k k) ->
-    forall (fs : fsmap content) (m : mol conformer) (a : fargs opts) (L k : Z),
+         (g : conformer -> Z -> fp) (nmf : Z -> option string)
+         (fs : fsmap content) (m : mol conformer) (a : fargs opts) (L k : Z),
     let bits := normal_bits (a_bits a) in
     let N := cutoff (a_first a) (length (mconfs m)) in
     let a_k := mkfargs (a_bits a) (Some k) (a_first a) (a_opts a) (a_out_dir_base a) (a_out_ext a) false false (a_overwrite a) in
+    (* fprint_truncation, for the level cap L of this call *)
+    (forall (c : conformer) (i : Z) (x : fp), In c (firstn N (mconfs m)) -> 0 <= i <= L ->
+        fprint (a_opts a) bits c L i = Ok x -> fprint (a_opts a) bits c i i = Ok x) ->
     a_level a = Some L -> 0 <= k <= L -> a_all_iters a = true -> a_save a = false ->
     mconfs m <> [] -> (1 <= N)%nat ->
     fp_init (a_opts a) bits L = Ok tt -> fp_init (a_opts a) bits k = Ok tt ->
@@ -122,6 +125,31 @@ Theorem all_iters_spec :
       dict_get d k = Some (column conformer g nmf (firstn N (mconfs m)) k) /\ dict_get dk k = dict_get d k.
 Proof. exact all_iters_spec. Qed.
 Print Assumptions all_iters_spec.
+
+(* the same with the per-conformer function of model M1 (Model/E3FP.v: run to the level cap, then
+   get_fingerprint_at_level): the truncation premise is discharged by C12 (run_prefix, truncation); what remains is that
+   the iteration bound `fuel` of the model exceeds the level cap *)
+Theorem all_iters_spec_M1 :
+  forall (D : Model.Geometry.ringdict) (C : Model.Stereo.sconsts) (fuel : nat) (counts : bool) (mask : list Z)
+         (fp_init : Model.E3FP.opts -> Z -> Z -> result unit) (content : Type) (pickle : list fp -> content)
+         (g : Model.E3FP.mol D -> Z -> fp) (nmf : Z -> option string)
+         (fs : fsmap content) (m : mol (Model.E3FP.mol D)) (a : fargs Model.E3FP.opts) (L k : Z),
+    let bits := normal_bits (a_bits a) in
+    let N := cutoff (a_first a) (length (mconfs m)) in
+    let a_k := mkfargs (a_bits a) (Some k) (a_first a) (a_opts a) (a_out_dir_base a) (a_out_ext a) false false (a_overwrite a) in
+    let dict := fprints_dict_from_mol (Model.E3FP.mol D) Model.E3FP.opts (PipelineM1.fprint_M1 D C fuel counts mask) fp_init content pickle in
+    (Z.to_nat L < fuel)%nat ->
+    a_level a = Some L -> 0 <= k <= L -> a_all_iters a = true -> a_save a = false ->
+    mconfs m <> [] -> (1 <= N)%nat ->
+    fp_init (a_opts a) bits L = Ok tt -> fp_init (a_opts a) bits k = Ok tt ->
+    (forall c i, In c (firstn N (mconfs m)) -> 0 <= i <= L ->
+                 PipelineM1.fprint_M1 D C fuel counts mask (a_opts a) bits c L i = Ok (g c i)) ->
+    (forall j, namer (effective_name (Model.E3FP.mol D) m) j = Ok (nmf j)) ->
+    exists d dk,
+      o_val (dict fs m a) = Ok d /\ o_val (dict fs m a_k) = Ok dk /\
+      dict_get d k = Some (column (Model.E3FP.mol D) g nmf (firstn N (mconfs m)) k) /\ dict_get dk k = dict_get d k.
+Proof. exact PipelineM1.all_iters_spec_M1. Qed.
+Print Assumptions all_iters_spec_M1.
 
 (* ---- level selection ---------------------------------------------------------------------------------------------- *)
 Theorem level_select_spec :
@@ -251,7 +279,10 @@ Theorem saved_reload_all_iters :
       o_val out = Ok d /\
       (forall k : Z, 0 <= k <= L ->
          dict_get d k = Some (column conformer g nmf P k) /\
-         (exists c : content,
+         (* repair e0cef96: a level file that exists is left untouched unless overwrite; the others reload *)
+         (fs_isfile fs (file k) && negb (a_overwrite a) = true -> fs_lookup (o_fs out) (file k) = fs_lookup fs (file k)) /\
+         (fs_isfile fs (file k) && negb (a_overwrite a) = false ->
+          exists c : content,
              fs_lookup (o_fs out) (file k) = Some c /\ unpickle c = Some (column conformer g nmf P k))).
 Proof. exact saved_reload_all_iters. Qed.
 Print Assumptions saved_reload_all_iters.
